@@ -45,6 +45,13 @@ CLAIMED = {
              "padding 0-1, dilation 1-2, C,F in {1,2}. Lateral: zero diagonal of weight and delay after tensor/Parameter/expression assignment and "
              "after updater application. Helpers: like_input(like_synaptic(x)) == x on read positions; pre/post receptive views place elements as documented.",
         ref="6/C05"),
+    "C06": dict(
+        text="Relational: a delayed connection D and an identically parameterised undelayed U receive the same symbolic input history (T=3, 5 thorough); "
+             "the per-synapse DELAY TENSOR IS SYMBOLIC (any real in [0,max], or constrained to the grid, or all zero), weights and biases symbolic. At every "
+             "step D.forward == sum_i w_oi * (U's synaptic current of input i read d_oi ago: history value on the grid, the synapse's documented "
+             "interpolation between grid points, resting state before the start); D.syncurrent/synspike show the same shifted values; zero delay == "
+             "no delay. 4 connection types (dense, direct, lateral, conv) x 5 synapse configurations x dt in {1.0, 1.3} x max delay 2dt (1-3 dt thorough).",
+        ref="6/C06"),
     "C07": dict(
         text="(i) inferno.trace_* one-step functions from an arbitrary symbolic trace (bool and real observations, tolerance on/off, first step). (ii) all "
              "12 FoldReducer configurations (6 trace reducers, Event with inf/nan/zero initial, Passthrough, EMA, CA): T=4 (6 thorough) symbolic observations "
